@@ -1,6 +1,6 @@
 // lockorder: static lock-acquisition order of a Go package, from its type-checked source.
 //
-// usage: lockorder DIR FILE...      (DIR = package directory; FILE = the files whose functions are analysed)
+// usage: lockorder [-fields T.f,T.g,...] DIR FILE...   (DIR = package directory; FILE = the files whose functions are analysed)
 //
 // Output (sorted, one fact per line):
 //
@@ -124,7 +124,15 @@ func callees(call *ast.CallExpr) []*types.Func {
 	// interface method (or a method we have no body for): every declared method of that name
 	if sig, ok := obj.Type().(*types.Signature); ok && sig.Recv() != nil {
 		if _, isIface := sig.Recv().Type().Underlying().(*types.Interface); isIface {
-			return byName[obj.Name()]
+			// every declared method of that name with the same numbers of parameters and results
+			var out []*types.Func
+			for _, c := range byName[obj.Name()] {
+				cs := c.Type().(*types.Signature)
+				if cs.Params().Len() == sig.Params().Len() && cs.Results().Len() == sig.Results().Len() {
+					out = append(out, c)
+				}
+			}
+			return out
 		}
 	}
 	return nil
@@ -374,10 +382,581 @@ func (w *walker) expr(e ast.Expr, _ bool) {
 	}
 }
 
+// ---------------------------------------------------------------------------------------------------------------
+// Second analysis: lock discipline.  For every access to a field of one of the package's struct types: which mutexes
+// are certainly held (must-hold, an under-approximation), and in which mode.
+//   access <Type>.<field> <r|w> <func> <class:mode,...|->
+// Must-hold state: Lock/RLock add (W/R); any Unlock/RUnlock - at any nesting - removes, unless the block it is in ends in
+// return / panic / continue / break / goto (control does not flow on from there); branches are intersected; a deferred
+// unlock holds to the end of the function.  On entry a function holds what all its call sites in the analysed files hold
+// (greatest fixpoint); functions that are exported, have no call site, are started with `go` or are used as values hold
+// nothing on entry; function literals that are not invoked on the spot hold nothing.
+
+type mstate map[string]string // class -> "W" | "R"; nil = unreachable
+
+func (m mstate) clone() mstate {
+	if m == nil {
+		return nil
+	}
+	c := mstate{}
+	for k, v := range m {
+		c[k] = v
+	}
+	return c
+}
+
+func meet(a, b mstate) mstate {
+	if a == nil {
+		return b.clone()
+	}
+	if b == nil {
+		return a.clone()
+	}
+	c := mstate{}
+	for k, v := range a {
+		if w, ok := b[k]; ok {
+			if v == "R" || w == "R" {
+				c[k] = "R"
+			} else {
+				c[k] = "W"
+			}
+		}
+	}
+	return c
+}
+
+func (m mstate) String() string {
+	if len(m) == 0 {
+		return "-"
+	}
+	var ks []string
+	for k, v := range m {
+		ks = append(ks, k+":"+v)
+	}
+	sort.Strings(ks)
+	return strings.Join(ks, ",")
+}
+
+var (
+	entry      = map[*types.Func]mstate{} // must-hold on entry (nil = not yet constrained = top)
+	isRoot     = map[*types.Func]bool{}
+	accesses   = map[string]bool{}
+	pkgTypes   = map[string]bool{}
+	record     bool
+	onlyFields map[string]bool
+)
+
+type mwalker struct {
+	fn     string
+	st     mstate
+	sites  map[*types.Func]mstate // call sites seen in this walk: callee -> meet of states
+	atomic bool                   // inside the arguments of a sync/atomic call
+}
+
+func (w *mwalker) access(sel *ast.SelectorExpr, write bool) {
+	if !record || w.st == nil {
+		return
+	}
+	s := info.Selections[sel]
+	if s == nil || s.Kind() != types.FieldVal {
+		return
+	}
+	tn := named(s.Recv())
+	if !pkgTypes[tn] {
+		return
+	}
+	if onlyFields != nil && !onlyFields[tn+"."+sel.Sel.Name] {
+		return
+	}
+	k := "r"
+	if write {
+		k = "w"
+	}
+	if w.atomic {
+		k = "a"
+	}
+	accesses[fmt.Sprintf("access %s.%s %s %s %s", tn, sel.Sel.Name, k, w.fn, w.st.String())] = true
+}
+
+// lvalue: the expression is written to
+func (w *mwalker) lvalue(e ast.Expr) {
+	switch x := e.(type) {
+	case *ast.SelectorExpr:
+		w.access(x, true)
+		w.rexpr(x.X)
+	case *ast.IndexExpr:
+		// m.f[k] = v writes the container held in field f
+		w.rexpr(x.Index)
+		if s, ok := x.X.(*ast.SelectorExpr); ok {
+			w.access(s, true)
+			w.rexpr(s.X)
+		} else {
+			w.lvalue(x.X)
+		}
+	case *ast.StarExpr:
+		w.rexpr(x.X)
+	case *ast.ParenExpr:
+		w.lvalue(x.X)
+	case *ast.Ident:
+	default:
+		w.rexpr(e)
+	}
+}
+
+func isAtomicCall(x *ast.CallExpr) bool {
+	if sel, ok := x.Fun.(*ast.SelectorExpr); ok {
+		if pk, ok := sel.X.(*ast.Ident); ok {
+			if pn, ok := info.Uses[pk].(*types.PkgName); ok && pn.Imported().Path() == "sync/atomic" {
+				return true
+			}
+		}
+	}
+	return false
+}
+
+func (w *mwalker) call(x *ast.CallExpr) {
+	if isAtomicCall(x) {
+		w.atomic = true
+	}
+	for _, a := range x.Args {
+		w.rexpr(a)
+	}
+	w.atomic = false
+	if c, op := lockCall(x); c != "" {
+		if w.st != nil {
+			switch op {
+			case "Lock":
+				w.st[c] = "W"
+			case "RLock":
+				if w.st[c] != "W" {
+					w.st[c] = "R"
+				}
+			case "Unlock", "RUnlock":
+				delete(w.st, c)
+			}
+		}
+		return
+	}
+	if sel, ok := x.Fun.(*ast.SelectorExpr); ok {
+		if pk, ok := sel.X.(*ast.Ident); ok {
+			if pn, ok := info.Uses[pk].(*types.PkgName); ok && pn.Imported().Path() == "sync/atomic" {
+				return // the arguments were walked above; &x.f passed to sync/atomic is recorded as an atomic access there
+			}
+		}
+	}
+	if id, ok := x.Fun.(*ast.Ident); ok && id.Name == "delete" && len(x.Args) == 2 {
+		if s, ok := x.Args[0].(*ast.SelectorExpr); ok {
+			w.access(s, true)
+		}
+	}
+	if fl, ok := x.Fun.(*ast.FuncLit); ok {
+		saved := w.st.clone()
+		w.block(fl.Body.List)
+		// its deferred unlocks end with it: what was held before is held after, minus what it released
+		if w.st != nil {
+			w.st = meet(w.st, saved)
+		} else {
+			w.st = saved
+		}
+		return
+	}
+	w.rexpr(x.Fun)
+	if w.st != nil {
+		for _, g := range callees(x) {
+			if cur, ok := w.sites[g]; ok {
+				w.sites[g] = meet(cur, w.st)
+			} else {
+				w.sites[g] = w.st.clone()
+			}
+		}
+	}
+}
+
+func (w *mwalker) rexpr(e ast.Expr) {
+	switch x := e.(type) {
+	case nil:
+	case *ast.CallExpr:
+		w.call(x)
+	case *ast.FuncLit:
+		// stored or passed: runs later, holding nothing for certain
+		saved := w.st
+		w.st = mstate{}
+		w.block(x.Body.List)
+		w.st = saved
+	case *ast.SelectorExpr:
+		w.access(x, false)
+		w.rexpr(x.X)
+	case *ast.ParenExpr:
+		w.rexpr(x.X)
+	case *ast.IndexExpr:
+		w.rexpr(x.X)
+		w.rexpr(x.Index)
+	case *ast.SliceExpr:
+		w.rexpr(x.X)
+		w.rexpr(x.Low)
+		w.rexpr(x.High)
+		w.rexpr(x.Max)
+	case *ast.StarExpr:
+		w.rexpr(x.X)
+	case *ast.UnaryExpr:
+		if x.Op == token.AND {
+			w.lvalue(x.X) // address taken: may be written through
+		} else {
+			w.rexpr(x.X)
+		}
+	case *ast.BinaryExpr:
+		w.rexpr(x.X)
+		w.rexpr(x.Y)
+	case *ast.KeyValueExpr:
+		w.rexpr(x.Value)
+	case *ast.CompositeLit:
+		for _, el := range x.Elts {
+			w.rexpr(el)
+		}
+	case *ast.TypeAssertExpr:
+		w.rexpr(x.X)
+	}
+}
+
+func terminates(list []ast.Stmt) bool {
+	if len(list) == 0 {
+		return false
+	}
+	switch x := list[len(list)-1].(type) {
+	case *ast.ReturnStmt:
+		return true
+	case *ast.BranchStmt:
+		return true
+	case *ast.ExprStmt:
+		if c, ok := x.X.(*ast.CallExpr); ok {
+			if id, ok := c.Fun.(*ast.Ident); ok && id.Name == "panic" {
+				return true
+			}
+		}
+	case *ast.BlockStmt:
+		return terminates(x.List)
+	}
+	return false
+}
+
+// block: walk; afterwards w.st is the exit state (nil if control does not flow out)
+func (w *mwalker) block(list []ast.Stmt) {
+	for _, s := range list {
+		w.stmt(s)
+	}
+	if terminates(list) {
+		w.st = nil
+	}
+}
+
+func (w *mwalker) branch(pre mstate, f func()) mstate {
+	w.st = pre.clone()
+	f()
+	return w.st
+}
+
+func (w *mwalker) stmt(s ast.Stmt) {
+	switch x := s.(type) {
+	case nil:
+	case *ast.ExprStmt:
+		w.rexpr(x.X)
+	case *ast.DeferStmt:
+		if c, op := lockCall(x.Call); c != "" && (op == "Unlock" || op == "RUnlock") {
+			return
+		}
+		if fl, ok := x.Call.Fun.(*ast.FuncLit); ok {
+			// runs at function exit: whatever is held then is unknown here
+			saved := w.st
+			w.st = mstate{}
+			w.block(fl.Body.List)
+			w.st = saved
+			return
+		}
+		saved := w.st.clone()
+		w.st = mstate{}
+		w.rexpr(x.Call)
+		w.st = saved
+	case *ast.GoStmt:
+		saved := w.st
+		w.st = mstate{}
+		for _, a := range x.Call.Args {
+			w.rexpr(a)
+		}
+		if fl, ok := x.Call.Fun.(*ast.FuncLit); ok {
+			w.block(fl.Body.List)
+		} else {
+			for _, g := range callees(x.Call) {
+				isRoot[g] = true
+			}
+		}
+		w.st = saved
+	case *ast.AssignStmt:
+		for _, e := range x.Rhs {
+			w.rexpr(e)
+		}
+		for _, e := range x.Lhs {
+			w.lvalue(e)
+		}
+	case *ast.IncDecStmt:
+		w.lvalue(x.X)
+	case *ast.DeclStmt:
+		ast.Inspect(x, func(n ast.Node) bool {
+			if e, ok := n.(ast.Expr); ok {
+				w.rexpr(e)
+				return false
+			}
+			return true
+		})
+	case *ast.ReturnStmt:
+		for _, e := range x.Results {
+			w.rexpr(e)
+		}
+	case *ast.SendStmt:
+		w.rexpr(x.Chan)
+		w.rexpr(x.Value)
+	case *ast.BlockStmt:
+		w.block(x.List)
+	case *ast.LabeledStmt:
+		w.stmt(x.Stmt)
+	case *ast.IfStmt:
+		w.stmt(x.Init)
+		w.rexpr(x.Cond)
+		pre := w.st
+		a := w.branch(pre, func() { w.block(x.Body.List) })
+		var b mstate
+		if x.Else != nil {
+			b = w.branch(pre, func() { w.stmt(x.Else) })
+		} else {
+			b = pre.clone()
+		}
+		if a == nil && b == nil {
+			w.st = nil
+		} else {
+			w.st = meet(a, b)
+		}
+	case *ast.ForStmt:
+		w.stmt(x.Init)
+		pre := w.st
+		w.rexpr(x.Cond)
+		a := w.branch(pre, func() { w.block(x.Body.List); w.stmt(x.Post) })
+		if x.Cond == nil && a == nil {
+			// for { ... } left only by return / break: approximate the state after it by the state before
+			w.st = pre.clone()
+		} else {
+			w.st = meet(a, pre)
+		}
+	case *ast.RangeStmt:
+		w.rexpr(x.X)
+		pre := w.st
+		a := w.branch(pre, func() { w.block(x.Body.List) })
+		w.st = meet(a, pre)
+	case *ast.SwitchStmt:
+		w.stmt(x.Init)
+		w.rexpr(x.Tag)
+		pre := w.st
+		var out mstate
+		hasDefault, any := false, false
+		for _, c := range x.Body.List {
+			cc := c.(*ast.CaseClause)
+			if cc.List == nil {
+				hasDefault = true
+			}
+			e := w.branch(pre, func() {
+				for _, ex := range cc.List {
+					w.rexpr(ex)
+				}
+				w.block(cc.Body)
+			})
+			if e != nil {
+				if !any {
+					out, any = e, true
+				} else {
+					out = meet(out, e)
+				}
+			}
+		}
+		if !hasDefault {
+			if !any {
+				out, any = pre.clone(), true
+			} else {
+				out = meet(out, pre)
+			}
+		}
+		if !any {
+			w.st = nil
+		} else {
+			w.st = out
+		}
+	case *ast.TypeSwitchStmt:
+		w.stmt(x.Init)
+		pre := w.st
+		out := pre.clone()
+		for _, c := range x.Body.List {
+			cc := c.(*ast.CaseClause)
+			e := w.branch(pre, func() { w.block(cc.Body) })
+			if e != nil {
+				out = meet(out, e)
+			}
+		}
+		w.st = out
+	case *ast.SelectStmt:
+		pre := w.st
+		out := mstate(nil)
+		any := false
+		for _, c := range x.Body.List {
+			cc := c.(*ast.CommClause)
+			e := w.branch(pre, func() { w.stmt(cc.Comm); w.block(cc.Body) })
+			if e != nil {
+				if !any {
+					out, any = e, true
+				} else {
+					out = meet(out, e)
+				}
+			}
+		}
+		if any {
+			w.st = out
+		} else {
+			w.st = nil
+		}
+	}
+}
+
+func discipline(files []*ast.File, fname func(*types.Func) string) {
+	// roots: exported functions / methods, functions without a call site, functions used as values or started with go
+	called := map[*types.Func]bool{}
+	for _, f := range files {
+		ast.Inspect(f, func(n ast.Node) bool {
+			switch x := n.(type) {
+			case *ast.CallExpr:
+				for _, g := range callees(x) {
+					called[g] = true
+				}
+			case *ast.Ident:
+				// a declared function mentioned outside a call position is used as a value
+				if obj, ok := info.Uses[x].(*types.Func); ok {
+					_ = obj
+				}
+			}
+			return true
+		})
+	}
+	// function values: every use of a declared function's identifier that is not the Fun of a call
+	inCall := map[*ast.Ident]bool{}
+	for _, f := range files {
+		ast.Inspect(f, func(n ast.Node) bool {
+			if c, ok := n.(*ast.CallExpr); ok {
+				switch fn := c.Fun.(type) {
+				case *ast.Ident:
+					inCall[fn] = true
+				case *ast.SelectorExpr:
+					inCall[fn.Sel] = true
+				case *ast.IndexExpr:
+					if i, ok := fn.X.(*ast.Ident); ok {
+						inCall[i] = true
+					} else if s, ok := fn.X.(*ast.SelectorExpr); ok {
+						inCall[s.Sel] = true
+					}
+				}
+			}
+			return true
+		})
+	}
+	for id, obj := range info.Uses {
+		if fo, ok := obj.(*types.Func); ok && !inCall[id] {
+			if _, ok := decls[fo.Origin()]; ok {
+				isRoot[fo.Origin()] = true
+			}
+		}
+	}
+	// functions started with `go`
+	for _, f := range files {
+		ast.Inspect(f, func(n ast.Node) bool {
+			if g, ok := n.(*ast.GoStmt); ok {
+				for _, callee := range callees(g.Call) {
+					isRoot[callee] = true
+				}
+			}
+			return true
+		})
+	}
+	for obj, fd := range decls {
+		exported := obj.Exported()
+		if exported && fd.Recv != nil && len(fd.Recv.List) > 0 {
+			// a method is reachable from outside only if its receiver type is exported too
+			exported = ast.IsExported(named(info.TypeOf(fd.Recv.List[0].Type)))
+		}
+		if exported || !called[obj] {
+			isRoot[obj] = true
+		}
+	}
+	top := func() mstate {
+		t := mstate{}
+		for c := range classes {
+			t[c] = "W"
+		}
+		return t
+	}
+	for obj := range decls {
+		if isRoot[obj] {
+			entry[obj] = mstate{}
+		} else {
+			entry[obj] = top()
+		}
+	}
+	walkAll := func() map[*types.Func]mstate {
+		all := map[*types.Func]mstate{}
+		for obj, fd := range decls {
+			w := &mwalker{fn: fname(obj), st: entry[obj].clone(), sites: map[*types.Func]mstate{}}
+			w.block(fd.Body.List)
+			for g, st := range w.sites {
+				if cur, ok := all[g]; ok {
+					all[g] = meet(cur, st)
+				} else {
+					all[g] = st
+				}
+			}
+		}
+		return all
+	}
+	for changed := true; changed; {
+		changed = false
+		sites := walkAll()
+		for obj := range decls {
+			if isRoot[obj] {
+				continue
+			}
+			st, ok := sites[obj]
+			if !ok {
+				continue // only reachable from unreachable code: keep
+			}
+			n := meet(entry[obj], st)
+			if n.String() != entry[obj].String() {
+				entry[obj] = n
+				changed = true
+			}
+		}
+	}
+	record = true
+	walkAll()
+	record = false
+}
+
 func main() {
-	dir := os.Args[1]
+	args := os.Args[1:]
+	if len(args) >= 2 && args[0] == "-fields" {
+		// only accesses to these Type.field names are reported (default: all)
+		onlyFields = map[string]bool{}
+		for _, f := range strings.Split(args[1], ",") {
+			if f != "" {
+				onlyFields[f] = true
+			}
+		}
+		args = args[2:]
+	}
+	dir := args[0]
 	want := map[string]bool{}
-	for _, f := range os.Args[2:] {
+	for _, f := range args[1:] {
 		want[f] = true
 	}
 	pkgs, err := parser.ParseDir(fset, dir, func(fi os.FileInfo) bool {
@@ -453,7 +1032,23 @@ func main() {
 			}
 		}
 	}
+	for _, f := range files {
+		for _, d := range f.Decls {
+			if gd, ok := d.(*ast.GenDecl); ok && gd.Tok == token.TYPE {
+				for _, sp := range gd.Specs {
+					ts := sp.(*ast.TypeSpec)
+					if _, ok := ts.Type.(*ast.StructType); ok {
+						pkgTypes[ts.Name.Name] = true
+					}
+				}
+			}
+		}
+	}
+	discipline(files, fname)
 	var out []string
+	for a := range accesses {
+		out = append(out, a)
+	}
 	for c := range classes {
 		out = append(out, "class "+c)
 	}
